@@ -201,7 +201,7 @@ func genMcase(r *Rng, m *mstore) (*mcase, string) {
 	c.path = commitmenttypes.NewMerklePath([]byte("ibc"), key)
 	mut := "none"
 	if r.Chance(0.65) {
-		switch r.Intn(16) {
+		switch r.Intn(18) {
 		case 0:
 			mut = "root-flip"
 			c.root = commitmenttypes.NewMerkleRoot(flip(m.root, r))
@@ -271,6 +271,25 @@ func genMcase(r *Rng, m *mstore) (*mcase, string) {
 				}
 			} else if np := p0.GetNonexist(); np != nil {
 				np.Key = flip(np.Key, r)
+			}
+		case 16, 17:
+			// a self-consistent forgery: an inner step of the lowest proof is altered so that it violates the
+			// proof spec (prefix far longer than the IAVL spec allows), and everything above it - the store
+			// proof's value and the root - is recomputed from the altered proof. Every hash chains; only the
+			// per-step spec check of ICS-23 can reject it.
+			if c.member && len(c.proof.Proofs) == 2 {
+				ep0, ep1 := c.proof.Proofs[0].GetExist(), c.proof.Proofs[1].GetExist()
+				if ep0 != nil && ep1 != nil && len(ep0.Path) > 0 {
+					io := ep0.Path[r.Intn(len(ep0.Path))]
+					io.Prefix = append(append([]byte{}, io.Prefix...), r.Bytes(40+r.Intn(20))...)
+					if sub, err := c.proof.Proofs[0].Calculate(); err == nil {
+						ep1.Value = sub
+						if top, err := c.proof.Proofs[1].Calculate(); err == nil {
+							c.root = commitmenttypes.NewMerkleRoot(top)
+							mut = "inner-spec-consistent"
+						}
+					}
+				}
 			}
 		case 15:
 			mut = "wrong-kind"
